@@ -843,9 +843,10 @@ class map_async(Stream):
         super().start()
 
     def stop(self):
-        stop_work, _ = self.work_task
-        stop_work.set()
-        self.work_task = None
+        if self.work_task:
+            stop_work, _ = self.work_task
+            stop_work.set()
+            self.work_task = None
         super().stop()
 
     def update(self, x, who=None, metadata=None):
